@@ -109,6 +109,9 @@ impl<'a> Lx<'a> {
             j += 1;
         }
         let text: String = self.cs[self.i..j].iter().collect();
+        if as_argument && text.contains('(') {
+            return Err(LexErr::Unspec("'(' inside an unquoted argument word".into()));
+        }
         self.i = j;
         Ok(RawWord { text, quoted: false, start })
     }
@@ -361,7 +364,20 @@ pub fn arg_perm(s: &str) -> PermArg {
     } else {
         match chmod_symbolic(body) {
             Some(b) => b,
-            None => return PermArg::NotMember,
+            None => {
+                // chmod(1) itself accepts more (empty who or permission list, X s t, copies u g o): the
+                // property only fixes who in {u,g,o,a}, operators + - = and permissions r w x
+                let fuller = !body.is_empty()
+                    && body.split(',').all(|c| {
+                        let cs: Vec<char> = c.chars().collect();
+                        let who = cs.iter().take_while(|x| "ugoa".contains(**x)).count();
+                        who < cs.len() && "+-=".contains(cs[who]) && cs[who + 1..].iter().all(|x| "rwxXstugo".contains(*x))
+                    });
+                if fuller {
+                    return PermArg::Unspecified("symbolic mode outside [ugoa]+[+-=][rwx]+ that chmod(1) would accept".into());
+                }
+                return PermArg::NotMember;
+            }
         }
     };
     let p = Permission(Mode::from_bits(bits).unwrap());
@@ -686,6 +702,24 @@ enum Built {
     Unspec(String),
 }
 
+/// right syntax for the numeric language (value range aside)?
+fn numeric_syntax_ok(l: Lang, s: &str) -> bool {
+    let (sign, body) = split_sign(s);
+    match l {
+        Lang::CountU32 | Lang::CountU64 => all_digits(body),
+        Lang::PlainU32 => sign == 0 && all_digits(body),
+        Lang::Size => {
+            let d = body.trim_end_matches(|c| "bcwkMGT".contains(c));
+            all_digits(d) && body.len() - d.len() <= 1
+        }
+        Lang::TimeMin | Lang::TimeDay => {
+            let d = body.trim_end_matches(|c| "smhd".contains(c));
+            all_digits(d) && body.len() - d.len() <= 1
+        }
+        _ => false,
+    }
+}
+
 fn numeric_lang(l: Lang) -> bool {
     matches!(l, Lang::CountU32 | Lang::CountU64 | Lang::Size | Lang::TimeMin | Lang::TimeDay | Lang::PlainU32 | Lang::Types)
 }
@@ -709,6 +743,20 @@ fn build(kw: &Kw, args: &[RawWord]) -> Built {
         () => {
             Built::NotMember(format!("argument {:?} of {} is not in its argument language", a0, kw.word))
         };
+    }
+    if matches!(kw.lang, Lang::TimeMin | Lang::TimeDay) {
+        if let Some(c) = arg_time(a0, kw.lang == Lang::TimeDay) {
+            let (Comparison::Equal(ts) | Comparison::GreaterThan(ts) | Comparison::LesserThan(ts)) = &c;
+            let (n, unit): (u128, u128) = match ts {
+                TimeSpec::Second(n) => (*n as u128, 1),
+                TimeSpec::Minute(n) => (*n as u128, 60),
+                TimeSpec::Hour(n) => (*n as u128, 3600),
+                TimeSpec::Day(n) => (*n as u128, 86400),
+            };
+            if n * unit > u64::MAX as u128 {
+                return Built::Unspec("time count whose span in seconds exceeds 64 bits (may be carried or refused)".into());
+            }
+        }
     }
     let e = match kw.word {
         "-amin" | "-atime" => match arg_time(a0, kw.word == "-atime") {
@@ -817,6 +865,9 @@ pub enum Failure {
     MissingArgument(&'static str),
     /// keyword with an argument word outside its language
     BadArgument(&'static str, String),
+    /// numeric argument of the right syntax whose value does not fit the field (may be refused by
+    /// parse or by compile)
+    OutOfRange(&'static str, String),
     Other(String),
 }
 
@@ -920,6 +971,9 @@ pub fn lex(text: &str) -> Result<Lexed, (Spec, Option<Failure>)> {
             Built::Opt(o) => toks.push(Tok::Opt(o)),
             Built::NotMember(s) => {
                 let bad = if kw.lang == Lang::WordFormat { args[1].text.clone() } else { args[0].text.clone() };
+                if numeric_syntax_ok(kw.lang, &bad) {
+                    return Err((Spec::Err(s), Some(Failure::OutOfRange(kw.word, bad))));
+                }
                 return Err((Spec::Err(s), Some(Failure::BadArgument(kw.word, bad))));
             }
             Built::Unspec(s) => return Err(unspec(s)),
